@@ -163,6 +163,8 @@ class SimSocket(socket.socket):
         if off != len(wire):
             raise ValueError(f"segments cover {off} bytes, wire has {len(wire)}")
         self._timeout = schedule.get("timeout")
+        self._nonblocking = bool(schedule.get("nonblocking"))
+        self._fileno = int(schedule.get("fileno", 7))  # descriptor number (the lowest free one, as the OS hands out)
         self._end = schedule.get("end", "close")
         if self._end == "timeout" and self._timeout is None:
             self._timeout = 1.0
@@ -184,12 +186,21 @@ class SimSocket(socket.socket):
             self._ai += 1
 
     def recv(self, bufsize, flags=0):
+        if self.closed:
+            import errno  # pylint: disable=import-outside-toplevel
+
+            raise OSError(errno.EBADF, "Bad file descriptor")
         self.budget.tick(self._pos >= len(self._wire))
         self.now += self._host_delay
         self._advance_visibility()
         if self._visible == self._pos:
             if self._ai < len(self._arrivals):
                 t_next = self._arrivals[self._ai][0]
+                if self._nonblocking:
+                    # nothing has arrived yet: a non-blocking socket says so at once (EAGAIN)
+                    self.midstream_timeouts += 1
+                    self.ledger.append(("recv", self._pos, bufsize, "eagain"))
+                    raise BlockingIOError(11, "Resource temporarily unavailable")
                 if self._timeout is None or t_next - self.now <= self._timeout:
                     self.now = max(self.now, t_next)
                     self._advance_visibility()
@@ -246,7 +257,7 @@ class SimSocket(socket.socket):
         return self._timeout
 
     def fileno(self):
-        return -1
+        return -1 if self.closed else self._fileno
 
     def close(self):
         self.closed = True
